@@ -176,6 +176,11 @@ func vNow() int64 {
 // express times relative to vNow()).
 func vFixNow(t int64) {}
 
+// vNoteBase64 / vBase64Source: the reference encoder records (text, source octets) so that decoding exactly that
+// text again is the identity at term level (engine only; natively nothing is recorded and decoders run normally).
+func vNoteBase64(text string, src []byte)       {}
+func vBase64Source(text string) ([]byte, bool) { return nil, false }
+
 // vConcretize asks the engine to fork over all feasible values of x.
 func vConcretize(x int) int { return x }
 
